@@ -55,7 +55,7 @@ func TestVerifC04Storage(t *testing.T) {
 			s.auditOnPublish = true
 			s.auditNames = true
 			s.auditOnPublish = true
-			h := &simHist{s: s, opts: simHistOpts{MaxRounds: 7, ClockFaults: false, Faults: true, Shapes: c04Shapes, Existing: big, RoundDuringSubmit: true}, nextID: bigNext}
+			h := &simHist{s: s, opts: simHistOpts{MaxRounds: 7, ClockFaults: false, Faults: true, Shapes: c04Shapes, Existing: big, RoundDuringSubmit: true, CancelRounds: true}, nextID: bigNext}
 			partialToFull := false
 			lastPub := int64(0)
 			h.afterRound = func(res *simRoundResult) error {
@@ -118,6 +118,7 @@ func TestVerifC04Storage(t *testing.T) {
 			rec.Add("leaves", int64(len(s.model)))
 			rec.Add("operations", int64(s.w.opN))
 			add(s.w.stalls > 0, "operation-stalled-until-deadline")
+			add(h.st.CancelledRounds > 0, "sequencing-context-cancelled-mid-round")
 			add(h.st.HugeRounds > 0, "round-of-more-than-five-tiles")
 			add(s.w.barriersMet > 0, "tile-uploads-overlapping")
 			rec.Add("tile-barrier-timeouts", int64(s.w.barrierTimeouts))
